@@ -839,6 +839,11 @@ def sym_join(sep, items):
     items = list(items)
     if isinstance(sep, str) and all(isinstance(i, str) for i in items):
         return sep.join(items)
+    if isinstance(sep, str) and all(isinstance(i, (str, SymStr)) for i in items):
+        # value-concrete proxies (e.g. text that went through the capture stub)
+        vals = [i if isinstance(i, str) else i.const() for i in items]
+        if all(v is not None for v in vals):
+            return sep.join(vals)
     if sep == '\n' and items and all(isinstance(i, (str, SymStr)) for i in items) and getattr(sym_join, 'lines_mode', False):
         return JoinedLines(items)
     out = SymStr.of('')
